@@ -16,6 +16,28 @@ static GraphSpec gen_approx_graph(Rng &r, int max_n, size_t &k_out, bool int_onl
     int pick = (int) r.below(10);
     static const int ks[] = {1, 1, 2, 2, 2, 3, 3, 4, 5};
     size_t k = ks[r.below(9)];
+    if (pick == 9) {
+        // "heavy shortcut fan": one very heavy edge x==u that the greedy spanner must keep (its light detour has 2k hops), and m
+        // chords (v_i,u) that are dropped and whose shortest closing path (2k-1 light hops) avoids the heavy edge although a
+        // 2-hop route through it exists.  Any closing path that is not a shortest path costs ~W per chord and breaks the bound.
+        k = (size_t) r.range(2, 3);
+        int m = (int) r.range(3, 8); ll W = r.chance(0.5) ? 1000 : 200;
+        Topo t; std::vector<ll> wt; int n = 3; const int x = 0, u = 1, b = 2;
+        auto E = [&](int a_, int b_, ll w_) { s.edges.push_back({a_, b_, w_}); };
+        E(x, u, W); E(b, u, r.range(1, 2));
+        for (int i = 0; i < m; i++) {
+            int v = n++; E(v, x, r.range(1, 2));
+            int prev = v; for (size_t h = 0; h + 3 < 2 * k; h++) { int a_ = n++; E(prev, a_, r.range(1, 2)); prev = a_; }   // 2k-3 inner hops
+            E(prev, b, r.range(1, 2));
+            E(v, u, 3);
+        }
+        s.n = n; s.family = "heavy_shortcut_fan";
+        std::vector<int> perm(n); std::iota(perm.begin(), perm.end(), 0); r.shuffle(perm);
+        for (auto &e : s.edges) { e.u = perm[e.u]; e.v = perm[e.v]; if (r.chance(0.5)) std::swap(e.u, e.v); }
+        r.shuffle(s.edges); s.wshift = 0; s.wmode = 0; s.tie_rich = false;
+        k_out = k;
+        return s;
+    }
     if (pick < 4) {
         s = gen_graph(r, o);
     } else {
